@@ -115,7 +115,7 @@ ROUND4 = {
  "C10": (" Round 4: stock-shell slice - the unmodified yash_cli::main binary (harness/yash3w) on the real system, 17 abort kinds x 7 contexts x {script file, -c, standard input}, observed through /bin/echo: nothing after the abort point, EXIT trap exactly once with the failing status = exit status; built-in output-error slice (12 printing built-ins x closed stdout / broken pipe x 5 contexts x plain/`command`).", "vsh-virtual + stock-real"),
  "C11": (" Part F (round 4): the kernel as monitor - /proc/self/status of a program started by the stock shell (yash3w, real system) after 10 trap set-ups x 6 warm-ups x 15 ways of starting it (exec, plain, subshells, asynchronous lists, pipelines, substitutions, functions, eval) x {non-interactive, -m, -i}, a third of the matrix per quick run chosen by seed, all of it in thorough: nothing blocked, ignored = inherited + trap '' (+ INT/QUIT for asynchronous lists without job control); an interactive shell survives TERM/QUIT/INT after a failed exec.", "lib-inproc + vsh-virtual + stock-real"),
  "C13": (" Round 4: shared-pipe slice (2-3 writers / 2 readers on one pipe end with payloads beyond its capacity, FIFO + 59/1499 random schedules per shape: terminates, all reaped, every byte counted); exit-status sweep (final statuses 0-3, 124-130, 254-258, 383-524, 640, 1000 x 5 kinds of child); stop/continue slice.", None),
- "C14": (" Real-system slice (round 4): 54 / 900 pipelines through the harness shell on the real kernel with payloads around 4096 and 65536 bytes, mixing built-ins and external utilities that share pipe ends (incl. a built-in `read` followed by /bin/cat on the same pipe, substitution + here-document): length and hash at the consumer, blocking mode of descriptors 0-9 before == after; a run idle for 60 s is reported as blocked.", "vsh-virtual + vsh-real"),
+ "C14": (" Real-system slice (round 4): 54 / 900 pipelines through the harness shell on the real kernel with payloads around 4096 and 65536 bytes, mixing built-ins and external utilities that share pipe ends (incl. a built-in `read` followed by /bin/cat on the same pipe, substitution + here-document): length and hash at the consumer, blocking mode of descriptors 0-9 before == after; a run idle for 60 s is reported as blocked. Stress: 4 / 16 shards x 120 / 1500 rounds of four built-in writers (parallel real processes) sharing one pipe end: 20000 bytes per round at the consumer, the shared description back in blocking mode after `wait`.", "vsh-virtual + vsh-real"),
  "C16": (" Round 4: attributes-from-functions slice - readonly/export (with/without value, values containing `=`, after typeset) in 5 function shapes: value, export flag and writability inside the function and after the return.", None),
  "C17": (" Round 4: the `do` position of a for loop in the model (not a command position); executed-commands slice - 12 alias tables with multi-line values run by the whole shell from a file, a pipe by lines and by bytes, -c, and -i: the probes equal those of the hand-substituted script.", "lib-inproc + vsh-virtual"),
  "C18": (" Round 4: `set -m`/`set +m` and asynchronous readers (6 forms, inside and outside subshells) among the items; stop/continue slice with a stopped reader of the next script line.", None),
